@@ -15,6 +15,9 @@ Parameter validation of BOTH fastCover entry points (fparam_ops): f over {defaul
 trainer and optimiser (fixed k / d, searched k / d, one and two threads), run with the sanitizer's allocator limited to 1 GiB per request so that an attempt to allocate the 2^f
 counters of an out-of-range f is an observed outcome (memory_allocation) instead of tens of GB: out-of-range values must be refused with parameter_outOfBound by both, and the verdict
 of each equals Train.fastCoverParamsOk.
+Shrinking (shrink_ops): both optimisers with shrinkDict set and several shrinkDictMaxRegression values over a dense sweep of small corpus sizes (template copies, 560..7300 step 50 twice
+interleaved, + random), as determinism pairs in the ASan build and - one to three threads - in a MemorySanitizer build (build.py variant msan; harness leaves fresh blocks and the
+destination unwritten), which also re-runs a sample of the successful operations: a dictionary (or a rejected candidate) built from bytes nobody wrote.
 Function-level ties: COVER_computeEpochs == Train.computeEpochs, COVER_ctx_init / FASTCOVER_ctx_init == Train.ctxInit.  One shape is excluded (EXCLUDED in
 harness/zvh_train.c: optimiser, split < 1, training part below max(d,8) bytes - a crash of the unchanged tree); repaired in the tree by fix 3d7351b: the shape runs by default and must give an error code; ZV_C18_EXCLUDE=1 restores the exclusion."""
 import os, re
@@ -58,7 +61,7 @@ def gen_op(rng, quick):
 
 
 def _op(algo, cap, k, d, f, accel, steps, split, shrink, threads, spec, seed, perturb=0, dict_id=0, level=3):
-    return "train %s %d %d %d %d %d %d %d %d %d %d %d %s:%d %d %d" % (algo, cap, k, d, f, accel, steps, split, shrink, threads, dict_id, level, spec, seed, perturb, seed % 1000 + 1)
+    return "train %s %d %d %d %d %d %d %d %s %d %d %d %s:%d %d %d" % (algo, cap, k, d, f, accel, steps, split, shrink, threads, dict_id, level, spec, seed, perturb, seed % 1000 + 1)
 
 
 def blank_head(cover, cap, nb, ssz, split):
@@ -152,6 +155,52 @@ def tiny_training_ops(rng, quick):
                 ops.append(_op(algo, rng.choice([256, 1000, 5000]), rng.choice([0, 0, 16, 50]), d, rng.choice([12, 16]), 1, rng.choice([1, 2, 4]), split, 0, 1,
                                "lead%dx%d:%d:%d" % (H, B, nb, rng.choice([12, 40, 200])), rng.randrange(1 << 30)))
     return ops
+
+
+SHRINK_LO, SHRINK_HI = 560, 7300
+
+
+def shrink_ops(rng, quick):
+    """The optimisers with shrinkDict set, on corpora MUCH SMALLER than the capacity (the selected content leaves the front of the candidate's buffer unwritten) whose content is
+    all useful (kind rep: every sample a copy of one random template, so a dictionary missing part of the content is several times worse and only a candidate holding ALL of it
+    can be accepted).  A shrink loop tries sizes growing geometrically from ZDICT_DICTSIZE_MIN; whether one of them falls between the content size and content + header size
+    depends on the corpus size, so the template length sweeps SHRINK_LO..SHRINK_HI DENSELY (step 50, phase drawn per run: every window of ~100 bytes - there are four in the range
+    for the doubling loop - is visited twice or more per sweep whatever the phase), with shrinkDictMaxRegression 5 and 20 (shifted by half a step), 1 and 0 on coarser grids,
+    k = 64 (segments) and k = L + d - 1 (the whole template in one segment: no redundant content at all), d 6 / 8, plus random sizes / k / capacities / sample counts /
+    regressions / shrinkDict values.  Returns (san_ops, msan_ops): the first list runs in the ASan+UBSan build as determinism pairs (fresh heap blocks filled 0x11 / 0xEE, destination
+    pre-filled differently) with every monitor of the main loop (capacity, loaders, IDs, round trip, Lean loader); the second runs once each in the MemorySanitizer build with
+    unfilled blocks, one and two threads (a single candidate each, so nothing depends on the schedule), where a shrunk candidate built from unwritten bytes is a report even
+    when the optimiser then rejects it."""
+    san, msan = [], []
+    step = 50
+    ph = rng.randrange(step)
+    def rep(algo, L, k, d, shrink, threads=1, cap=16384, nb=12, split=100, steps=1):
+        return _op(algo, cap, k, d, 16, 1, steps, split, shrink, threads, "rep:%d:%d" % (nb, L), rng.randrange(1 << 30))
+    for L in range(SHRINK_LO + ph, SHRINK_HI, step):
+        san.append(rep("optcover", L, 64, 8, "1r5"))
+        san.append(rep("optcover", L + step // 2, rng.choice([64, 64, L + step // 2 + 7]), 8, "1r20"))
+        msan.append(rep("optcover", L, rng.choice([64, 64, 48, L + 7]), 8, "1r%d" % rng.choice([0, 1, 5, 100])))
+        msan.append(rep("optfast", L, 64, rng.choice([8, 8, 6]), "1r%d" % rng.choice([0, 5])))
+    for i, L in enumerate(range(SHRINK_LO + ph, SHRINK_HI, 2 * step)):
+        san.append(rep("optcover", L + 10, 64, rng.choice([8, 6]), "1r1"))
+        san.append(rep("optfast", L, 64 if i % 2 else L + 7, 8, "1r%d" % rng.choice([0, 5])))
+        msan.append(rep("optcover", L + step, 64, 8, "1r5", threads=2))
+        msan.append(rep("optfast", L + step, 64, 8, "1", threads=rng.choice([2, 3])))
+        if i % 2 == 0:
+            san.append(rep("optcover", L + 30, 64, 8, "1r0"))
+    for i in range(40 if quick else 400):
+        L = rng.randrange(300, 9000)
+        d = rng.choice([8, 8, 6])
+        algo = rng.choice(["optcover", "optcover", "optfast"])
+        o = rep(algo, L, rng.choice([64, 64, 32, 100, 200, L + d - 1, 0]), d, "%dr%d" % (rng.choice([1, 1, 2, 255]), rng.choice([0, 1, 2, 5, 10, 50])),
+                cap=rng.choice([8192, 16384, 16384, 40000, 110000]), nb=rng.choice([8, 12, 20, 30]), split=rng.choice([100, 100, 75]), steps=rng.choice([1, 1, 2]))
+        (san if i % 2 else msan).append(o)
+    # corpora of other kinds, smaller than the capacity, shrinkDict set (candidates of every size are acceptable there: any of them may be returned)
+    for kind, nb, ssz in (("pool", 40, 300), ("text", 30, 200), ("same", 20, 900), ("bin", 30, 200), ("pool", 12, 700), ("text", 200, 100)):
+        for algo in ("optcover", "optfast", "def"):
+            o = _op(algo, rng.choice([20000, 60000, 110000]), 0, rng.choice([0, 6, 8]), 16, 1, rng.choice([1, 2, 4]), rng.choice([100, 75]), "1r%d" % rng.choice([0, 1, 5, 30]), 1, "%s:%d:%d" % (kind, nb, ssz), rng.randrange(1 << 30))
+            san.append(o); msan.append(o)
+    return san, msan
 
 
 def legacy_table_min():
@@ -289,12 +338,14 @@ def correspondence(ctx):
     quick = ctx.quick()
     n = 320 if quick else 6000
     ops = [gen_op(rng, quick) for _ in range(n)]
+    gen_set = set(ops)
     ops += ["train finalize 3000 1500 0 0 0 0 100 0 1 0 3 off1024:60:300:11 0 1", "train finalize 3000 2000 0 0 0 0 100 0 1 0 3 off1025:60:300:12 0 1", "train addent 4000 1500 0 0 0 0 100 0 1 0 3 off1024:60:300:13 0 1",
             "train optfast 6000 0 8 16 2 6 75 0 3 0 3 text:300:500:14 1 9", "train optcover 5000 0 8 0 0 4 100 0 2 0 3 text:120:400:15 1 9", "train def 30000 0 0 0 0 0 100 0 1 0 3 text:500:700:16 0 1"]
     sv_ops = size_varying_ops(rng, quick)
     rm_ops = remainder_ops(rng, quick)
     tt_ops = tiny_training_ops(rng, quick)
-    ops += sv_ops + rm_ops + tt_ops
+    sh_ops, ms_ops = shrink_ops(rng, quick)
+    ops += sv_ops + rm_ops + tt_ops + sh_ops
     sv_set = set(sv_ops)
     tf_ops = table_full_ops(rng, quick)
     tf_set = set(tf_ops)
@@ -469,6 +520,24 @@ def correspondence(ctx):
             # looks at the whole sample set instead of the training part - the reported defect of the unchanged tree; counted, listed, not tolerated for anything else
             stats["excluded"] += 1; excluded.append(op); continue
         ctx.violation("ctx_init: code answers %s (%s d-mers), the model %s: %s" % (m.group(1), m.group(2), v.strip(), op), dict(kind="tie-ctx-init", op=op, model=v, code=o))
+    # ---- MemorySanitizer: blocks and destinations left unwritten; the shrink sweeps (one and several threads) and a sample of the operations that trained a dictionary above ----
+    okops = [op for op, (o, crash) in zip(ops, res) if op in gen_set and crash is None and (o or "").startswith("res=ok:") and int(op.split()[5]) <= 20 and int(op.split()[10]) <= 1]
+    ms_ops = ms_ops + okops[: (30 if quick else 600)] + rm_ops[:: (12 if quick else 3)]
+    ms_env = dict(os.environ, MSAN_OPTIONS=":".join(x for x in (os.environ.get("MSAN_OPTIONS", ""), "halt_on_error=1", "exitcode=77") if x))
+    ms_bad = 0
+    for op, (o, crash) in zip(ms_ops, run_each(hx("msan"), ms_ops, timeout=900, env=ms_env)):
+        stats["msan_runs"] = stats.get("msan_runs", 0) + 1
+        if crash is None and o is not None and not o.startswith("res=HANG"):
+            if o.startswith("res=OVERFLOW"):
+                ctx.violation("dictionary larger than the capacity (MemorySanitizer build): %s -> %s" % (op, o[:60]), dict(kind="monitor", op=op, variant="msan", result=o[:300]))
+            continue
+        ms_bad += 1
+        if ms_bad > 6:
+            continue           # enough replays of one cause
+        summ = next((l.strip() for l in (crash or "").split("\n") if l.startswith("SUMMARY: ")), "")
+        where = [l.strip() for l in (crash or "").split("\n") if re.match(r"\s+#\d+ ", l) and "dictBuilder" in l][:3]
+        ctx.violation("training uses memory nobody wrote (MemorySanitizer) / crashes / hangs in the MemorySanitizer build: %s -> %s %s" % (op, summ or (crash or o or "")[:300], " | ".join(w[:160] for w in where)),
+                      dict(kind="monitor-msan", op=op, variant="msan", stderr=(crash or o or "")[-6000:]))
     # ---- ThreadSanitizer on multi-threaded optimiser runs ----
     tops = [o for o in ops if o.split()[1] in ("optcover", "optfast", "def") and int(o.split()[10]) > 1][: (6 if quick else 150)]
     env = dict(os.environ, TSAN_OPTIONS="halt_on_error=1")
@@ -482,8 +551,8 @@ def correspondence(ctx):
     if stats["grown_directed"] == 0:
         ctx.notes.append("none of the %d size-varying optimiser runs made the result holder grow its buffer: the directed family no longer reaches that case" % len(sv_ops))
     return dict(legacy_table_full_directed_runs=len(tf_ops), legacy_table_full_runs=stats["table_full"], legacy_table_full_runs_directed=stats["table_full_directed"], legacy_table_best_fill=stats["table_max_fill"], dict_item_table_ties=stats.get("dins_ties", 0),
-                excluded_known_crash_shape=stats["excluded"], fastcover_f_accel_validation_runs=stats.get("fparam_runs", 0), size_varying_runs=len(sv_ops), holder_buffer_regrowths=stats["grown"], holder_buffer_regrowths_directed=stats["grown_directed"], remainder_sweep_runs=len(rm_ops), tiny_training_part_runs=len(tt_ops), epochs_ties=stats.get('epoch_ties', 0), ctx_init_ties=stats.get('ctx_ties', 0),
-                evaluations=len(ops) + len(tops) + len(e_ops) + len(c_ops) + len(d_ops) + len(fp_ops), distinct_nontrivial=len(set(ops)) + len(set(e_ops)) + len(set(c_ops)) + len(set(d_ops)) + len(set(fp_ops)),
+                shrink_sweep_runs=len(sh_ops), memory_sanitizer_runs=stats.get("msan_runs", 0), excluded_known_crash_shape=stats["excluded"], fastcover_f_accel_validation_runs=stats.get("fparam_runs", 0), size_varying_runs=len(sv_ops), holder_buffer_regrowths=stats["grown"], holder_buffer_regrowths_directed=stats["grown_directed"], remainder_sweep_runs=len(rm_ops), tiny_training_part_runs=len(tt_ops), epochs_ties=stats.get('epoch_ties', 0), ctx_init_ties=stats.get('ctx_ties', 0),
+                evaluations=len(ops) + len(ms_ops) + len(tops) + len(e_ops) + len(c_ops) + len(d_ops) + len(fp_ops), distinct_nontrivial=len(set(ops)) + len(set(e_ops)) + len(set(c_ops)) + len(set(d_ops)) + len(set(fp_ops)),
                 rule="one evaluation = one training call (x2 when single-threaded, for determinism) on a generated sample set; distinct = distinct op lines",
                 samples=[dict(op=ops[0], result=(res[0][0] or "")[:200])], outcomes=dict(ok=stats["ok"], error=stats["err"], zero=stats["zero"]),
                 result_holder_traces_accepted=stats["holders"], finalize_layout_ties=stats["finalize_ties"], id_rule_ties=stats["id_ties"], parameter_verdict_ties=stats["param_ties"], lean_loader_checks=len(loads), tsan_runs=len(tops))
